@@ -171,6 +171,11 @@ def gen_case(rng, tier, est=None, seeded=None):
     # k-means and WCCN re-initialise at every fit: training the SAME estimator object again
     # must give the same result as a fresh one (GMM / ISV / JFA continue from their state)
     case["reuse_obj"] = est in ("kmeans", "wccn") and rng.random() < 0.4
+    if est == "kmeans" and case["reuse_obj"]:
+        # with a threshold, fits are only compared when presented identically (a permutation
+        # may legitimately flip a near-threshold stop)
+        case["cfg"]["km_thr"] = rng.choice([None, 1e-5, 0.05, 0.25, 0.5])
+        case["cfg"]["steps"] = rng.randint(1, 8)
     case["ydtype"] = rng.choice(["int64", "int64", "int32", "uint8", "uint16", "int8", "uint64"])
     case["cfg"]["rs_type"] = rng.choice(["int", "int", "int64", "int32", "uint32", "uint64"])
     return case
@@ -250,7 +255,7 @@ def _fit(case, o, rec, label):
     if est == "kmeans":
         init = "random" if False else (cfg["init_method"] if cfg["seeded"] else A(cfg["init"]))
         m = KMeansMachine(cfg["k"], init_method=init, max_iter=cfg["steps"],
-                          convergence_threshold=None, random_state=cfg["rs"])
+                          convergence_threshold=cfg.get("km_thr"), random_state=cfg["rs"])
         if case.get("reuse_obj"):
             m = _KEEP.setdefault("est", m)
         X = data["X"]
@@ -428,6 +433,8 @@ def run_case(case, replay=None):
                 continue  # backend / chunking differences are C04 / C12's business
             oa, ob = case["ops"][ia], case["ops"][ib]
             same = pa == pb and oa.get("perm") == ob.get("perm") and oa.get("sigma") == ob.get("sigma")
+            if not same and case["cfg"].get("km_thr") is not None:
+                continue
             tol = TOL_SAME if same else TOL_PRES
             bad = _cmp(A_, B_, s, tol)
             if bad is not None:
